@@ -33,6 +33,8 @@ class Scenario:
         self.validate_signatures = True
         self.wellformed = True
         self.req_id = "req-1"
+        # public-only ZSK material added to the request after construction: (identifier, RFC 3110 octets, algorithm, bundle indexes)
+        self.extra_zsk_public: list[tuple[str, bytes, int, list[int]]] = []
 
     # -- materialise -----------------------------------------------------------------------------
     def world(self) -> p11emu.World:
@@ -67,7 +69,22 @@ class Scenario:
         )
 
     def request(self) -> Any:
-        return C.honest_request(self.zsks, self.layout, start=self.start, zsk_ttl=self.zsk_ttl, req_id=self.req_id, bundle_prefix=self.req_id + "-bundle")
+        req = C.honest_request(self.zsks, self.layout, start=self.start, zsk_ttl=self.zsk_ttl, req_id=self.req_id, bundle_prefix=self.req_id + "-bundle")
+        if self.extra_zsk_public:
+            import base64
+
+            from kskm.common.data import AlgorithmDNSSEC
+            from kskm.common.dnssec import public_key_to_dnssec_key
+            from kskm.ksr.data import RequestBundle
+
+            bundles = list(req.bundles)
+            for ident, pk, alg, idxs in self.extra_zsk_public:
+                key = public_key_to_dnssec_key(public_key=base64.b64encode(pk), key_identifier=ident, algorithm=AlgorithmDNSSEC(alg), ttl=self.zsk_ttl, flags=256)
+                for i in idxs:
+                    b = bundles[i]
+                    bundles[i] = RequestBundle(id=b.id, inception=b.inception, expiration=b.expiration, keys=set(b.keys) | {key}, signatures=b.signatures, signers=b.signers)
+            req = req.replace(bundles=bundles)
+        return req
 
 
 def pick_ksk_key(r: Any, alg: int, quick: bool) -> K.TestKey:
@@ -159,6 +176,59 @@ def gen_scenario(r: Any, quick: bool = True, n_bundles: int | None = None, force
     return sc
 
 
+def special_scenarios(r: Any) -> list[Scenario]:
+    """Scenarios built on keys with particular key-tag properties (fixtures/special.json and crafted public material):
+    a KSK whose tag needs the RFC's single fold; a KSK whose revoked tag is tag + 129; two signing KSKs sharing a key tag;
+    a ZSK sharing its key tag with a published KSK (same bundle)."""
+    import base64
+
+    from kskm.common.data import AlgorithmDNSSEC
+    from kskm.common.dnssec import public_key_to_dnssec_key
+
+    sp = K.special()
+    out: list[Scenario] = []
+
+    def base(n: int, ksks: list[tuple[str, K.TestKey]], schema_of: Any) -> Scenario:
+        sc = Scenario()
+        sc.modules = [{"path": "emu0", "pin": "1234", "slots": [{"id": 0}]}]
+        for name, tk in ksks:
+            k = {"label": "K" + name, "tk": tk, "alg": 8, "module": "emu0", "slot": 0, "priv_has_pub_attrs": True}
+            k["entry"] = C.ksk_config_entry(k["label"], tk, 8, with_tag=True, with_ds=True, hash_using_hsm=r.choice([None, False, True]))
+            sc.ksks[name] = k
+        for slot in range(1, n + 1):
+            sc.schema[slot] = schema_of(slot)
+        z = [k for k in K.rsa_keys(1024, 65537) if all(k is not t for _, t in ksks)]
+        sc.zsks = [("Z0", z[0], 8), ("Z1", z[1], 8)]
+        sc.layout = [[0, 1]] + [[1]] * (n - 1)
+        sc.zsk_ttl = r.choice([3600, 172800])
+        sc.ksk_ttl = 172800
+        sc.meta = {"n": n, "alg": 8, "special": True}
+        return sc
+
+    for tk in sp["carry"]:
+        sc = base(2, [("ka", tk)], lambda slot: {"publish": ["ka"], "sign": ["ka"], "revoke": []})
+        sc.meta["special"] = "carry"
+        out.append(sc)
+    for tk in sp["revcarry"]:
+        other = sp["carry"][0]
+        sc = base(3, [("ka", tk), ("kb", other)], lambda slot: {"publish": ["kb"], "sign": ["ka", "kb"], "revoke": ["ka"] if slot == 2 else []} if slot != 3 else {"publish": ["kb"], "sign": ["kb"], "revoke": []})
+        sc.meta["special"] = "revcarry"
+        out.append(sc)
+    for a, b in sp["twins"]:
+        sc = base(2, [("ka", a), ("kb", b)], lambda slot: {"publish": ["ka", "kb"], "sign": ["ka", "kb"] if slot == 2 else ["ka"], "revoke": []})
+        sc.meta["special"] = "twin-signers"
+        out.append(sc)
+    # a ZSK with the same key tag as the published KSK, in one bundle of three
+    for tk in K.rsa_keys(2048, 65537)[:2]:
+        sc = base(3, [("ka", tk)], lambda slot: {"publish": ["ka"], "sign": ["ka"], "revoke": []})
+        ktag = public_key_to_dnssec_key(public_key=tk.dnskey_b64(), key_identifier="x", algorithm=AlgorithmDNSSEC(8), ttl=0, flags=257).key_tag
+        pk = K.craft_public_key_with_tag(ktag, 256, 8, r)
+        sc.extra_zsk_public = [("Ztwin", pk, 8, [1])]
+        sc.meta["special"] = "zsk-ksk-same-tag"
+        out.append(sc)
+    return out
+
+
 def run_sign(sc: Scenario, what: str = "sign_bundles") -> dict[str, Any]:
     """Run the implementation against the emulator; return everything the checks look at."""
     from kskm.misc.hsm import init_pkcs11_modules
@@ -223,10 +293,12 @@ def compare_with_model(res: lib.Result, runs: list[dict[str, Any]], what: str, t
             continue
         m = canon_model_result(o["result"], what)
         x["model"] = m
-        if lib.is_unsupported(m):
-            res.unsupported += 1
-            continue
         d = C.first_log_difference(x["log"], o["log"])
+        if lib.is_unsupported(m):
+            # in these scenarios nothing is outside the modelled domain: "unsupported" means the model left the recorded
+            # run (it asked the token, the hash or the verifier something the implementation did not ask)
+            res.disagreement(f"{what}: the model could not follow the implementation's run (replay / oracle miss)", x.get("case"), x["impl"], m, log_difference=d)
+            continue
         if not lib.same_outcome(x["impl"], m):
             res.disagreement(f"{what}: model result != implementation", x.get("case"), x["impl"], m, log_difference=d)
         elif d is not None:
@@ -235,16 +307,24 @@ def compare_with_model(res: lib.Result, runs: list[dict[str, Any]], what: str, t
             res.soft_error_kind_mismatch += 1
 
 
+def key_index(tk: K.TestKey) -> Any:
+    try:
+        return K.all_keys().index(tk)
+    except ValueError:
+        return "special:" + hex(getattr(tk, "n", 0))[-12:]
+
+
 def describe(sc: Scenario) -> dict[str, Any]:
     """A replayable, human-readable description of a scenario."""
     return {
         "meta": sc.meta,
         "schema": sc.schema,
         "ksks": {
-            n: {kk: (vv if kk not in ("tk",) else {"kind": vv.kind, "bits": getattr(vv, "bits", None), "e": getattr(vv, "e", None), "curve": getattr(vv, "curve", None), "index": K.all_keys().index(vv)}) for kk, vv in k.items()}
+            n: {kk: (vv if kk not in ("tk",) else {"kind": vv.kind, "bits": getattr(vv, "bits", None), "e": getattr(vv, "e", None), "curve": getattr(vv, "curve", None), "index": key_index(vv)}) for kk, vv in k.items()}
             for n, k in sc.ksks.items()
         },
-        "zsks": [(i, K.all_keys().index(tk), a) for i, tk, a in sc.zsks],
+        "zsks": [(i, key_index(tk), a) for i, tk, a in sc.zsks],
+        "extra_zsk_public": [(i, a, idx) for i, _, a, idx in sc.extra_zsk_public],
         "layout": sc.layout,
         "ksk_ttl": sc.ksk_ttl,
         "zsk_ttl": sc.zsk_ttl,
